@@ -67,6 +67,98 @@ def wire_vectors(ctx):
     return trace_stage(ctx, "wire-vectors", cmds, "Trace_Wire")
 
 
+def fix_trace(ctx):
+    cargo_build(ctx, "h_core")
+    extra = ["--fullbyte", "1", "--nstruct", "3000"] if ctx.tier == "thorough" else []
+    cmds = [([hbin("h_core"), "fix", "--seed", str(ctx.seed), "--shard", str(i), "--shards", str(NSH)] + extra, f"fix-{i}.ndjson") for i in range(NSH)]
+    return trace_stage(ctx, "fixint", cmds, "Trace_Wire")
+
+
+def run_c13(ctx):
+    tlc_mc(ctx, "fixint", "MC_Fix", tmpl("MC_Fix"))
+    fix_trace(ctx)
+
+
+# --------------------------------------------------------------------------- accumulator (C08, C09)
+def acc_mc(ctx, n, target, fit, emit=False, maxchunk=4, alpha="{0,1,2,3}", props="Progress", name=None):
+    cfg = tmpl("MC_Acc", N=n, Alphabet=alpha, MaxChunk=maxchunk, Target=target, Fit="TRUE" if fit else "FALSE",
+               Emit="TRUE" if emit else "FALSE", Props=props)
+    return tlc_mc(ctx, name or f"acc-N{n}-{target}-{'fit' if fit else 'any'}{'-vec' if emit else ''}", "MC_Acc", cfg,
+                  want_prefix='<<"VEC"' if emit else None, workers=8)
+
+
+def acc_models(ctx):
+    """state graphs of the accumulator model; the unrestricted ones are also the source of replay vectors"""
+    lines = set()
+    for n in ctx.pick([1, 2, 3, 4], [1, 2, 3, 4, 5, 6]):
+        for target in (["pair", "bytes"] if n >= 3 else ["pair"]):
+            mc = 4 if n <= 4 else 3
+            r = acc_mc(ctx, n, target, False, emit=True, maxchunk=mc)
+            lines.update(r.pop("lines"))
+            r["lines"] = []
+            acc_mc(ctx, n, target, True, maxchunk=mc)      # environment of C08: no OverFull is ever reported
+    if ctx.tier == "thorough":
+        acc_mc(ctx, 7, "pair", False, maxchunk=3, alpha="{0,1,2,3,4}")
+    # liveness of the documented loop on the smallest instance; N = 0 is documented not to make progress and is not claimed
+    acc_mc(ctx, 2, "pair", False, maxchunk=3, props="Progress Drains", name="acc-N2-liveness")
+    return sorted(lines)
+
+
+def acc_edges(ctx):
+    cargo_build(ctx, "h_core")
+    lines = [core.unescape_tla(l[len('<<"VEC", "'):-3]) for l in acc_models(ctx)]
+    d = os.path.join(WORK, "vec")
+    os.makedirs(d, exist_ok=True)
+    per = (len(lines) + NSH - 1) // NSH
+    cmds = []
+    for i in range(NSH):
+        chunk = lines[i * per:(i + 1) * per]
+        if not chunk:
+            continue
+        p = os.path.join(d, f"accedges-{ctx.tier}-{i}.json")
+        open(p, "w").write("\n".join(chunk) + "\n")
+        cmds.append(([hbin("h_core"), "acc-edges", "--in", p], f"accedges-{i}.ndjson"))
+    r = trace_stage(ctx, "acc-edges", cmds, "Trace_Acc")
+    r["distinct_edges"] = len(lines)
+    return r
+
+
+def acc_streams(ctx):
+    cargo_build(ctx, "h_core")
+    n, nexh, el = ctx.pick((60, 3, 9), (1500, 24, 12))
+    cmds = [([hbin("h_core"), "acc-stream", "--n", str(n), "--nexh", str(nexh), "--exhlen", str(el), "--seed", str(ctx.seed * 100 + i)], f"accstream-{i}.ndjson")
+            for i in range(NSH)]
+    return trace_stage(ctx, "acc-streams", cmds, "Trace_Acc", nontrivial=lambda e: e.get("op") == "feed")
+
+
+def run_acc(ctx):
+    acc_edges(ctx)
+    acc_streams(ctx)
+
+
+def _env(mm):
+    w = mm["expected"].get("want") if isinstance(mm["expected"], dict) else None
+    return w.get("env") if isinstance(w, dict) else None
+
+
+def sel_c08(mm):
+    # C08 quantifies over streams whose segments fit the capacity
+    t = set(mm.get("tags", []))
+    return _env(mm) == "fit" and bool(t & {"feed", "state", "conserve", "leaves", "ghost", "idx", "panic"})
+
+
+def sel_c09(mm):
+    t = set(mm.get("tags", []))
+    return bool(t & {"panic", "progress", "crash"}) or _env(mm) == "nofit" or (_env(mm) is None)
+
+
+ACC_ASSUME = [
+    "TLC, CommunityModules, the Python driver and the harness's Shape/Val bridge are trusted",
+    "the accumulator has no state besides (buf, idx), both read through the cfg-guarded hook; edge coverage of the model graph "
+    "is therefore path coverage (DESIGN.md 5.C08); stale buffer contents are covered by two regimes",
+    "MAXRUN = 254 (the cobs crate's constant) in the frame decoder used by the model",
+]
+
 # --------------------------------------------------------------------------- properties
 WIRE_ASSUME = [
     "TLC, the CommunityModules Json/IOUtils modules and the Python driver are trusted",
@@ -96,6 +188,19 @@ def run_c03(ctx):
 
 
 REGISTRY = {
+    "C08": dict(run=run_acc, select=sel_c08, assumptions=ACC_ASSUME,
+                rule="edges: every (buffered bytes, chunk) transition of MC_Acc's graphs (N<=4..6, alphabet {0,1,2,3}, chunks<=4) replayed on "
+                     "the real CobsAccumulator<N> under 2 stale-content regimes x feed/feed_ref; streams: random streams of valid/corrupt/empty/"
+                     "garbage/over-long pieces under random chunkings and every chunking of short streams, through the documented loop; "
+                     "non-trivial = feed events (loop bookkeeping events excluded)"),
+    "C09": dict(run=run_acc, select=sel_c09, assumptions=ACC_ASSUME,
+                rule="as C08, judged on the steps outside the fit environment (over-long segments, garbage), plus panics, loop progress "
+                     "(iterations <= 2*len+2) and the index bound everywhere"),
+    "C13": dict(run=run_c13, tags=None, assumptions=WIRE_ASSUME,
+                rule="fixb events: the entire 16-bit domain (256 batch events x 256 values) for u16/i16 x le/be; rt events for the 8 integer "
+                     "types x 2 orders on every single-byte-nonzero pattern, extremes, all-distinct-bytes and random values, bare and embedded "
+                     "between ordinary fields, through all entry pairings, plus all truncations; a derived struct with #[serde(with)] on 16 fields; "
+                     "values are built arithmetically from limbs"),
     "C01": dict(run=run_c01, tags={"rt", "crash"}, assumptions=WIRE_ASSUME,
                 rule="events: one per (shape, value, encode entry, decode entry, tail) round trip, random shape trees over all kinds "
                      "(depth<=4) with boundary-structured values, cycling the 7x5 entry pairings, plus every MC_Wire state as a vector; "
